@@ -11,6 +11,8 @@ mod scen_core;
 #[cfg(feature = "full")]
 mod entry;
 #[cfg(feature = "full")]
+mod forger;
+#[cfg(feature = "full")]
 mod models_full;
 #[cfg(feature = "full")]
 mod proofrun;
